@@ -39,7 +39,7 @@ class Trace:
 SIGNAL_OPTS = ("none", "hup", "term", "int", "file", "hup+term", "term+hup", "term+term")
 
 
-def run(c: sym.Ctx, n_workers: int, depth: int, max_fails: Any, slow_exit: bool = True, first: Optional[int] = None) -> Trace:
+def run(c: sym.Ctx, n_workers: int, depth: int, max_fails: Any, slow_exit: bool = True, first: Optional[int] = None, early_death: bool = False) -> Trace:
     pm = clone()
     tr = Trace()
     handlers: Dict[int, Callable[..., Any]] = {}
@@ -59,6 +59,7 @@ def run(c: sym.Ctx, n_workers: int, depth: int, max_fails: Any, slow_exit: bool 
             self.term = False
             self.joined = False
             self.exitcode: Optional[int] = None
+            self.reaped = False  # the OS has released the pid (after a successful wait): it may be re-used by any process
             tr.procs.append(self)
 
         def start(self) -> None:
@@ -66,6 +67,12 @@ def run(c: sym.Ctx, n_workers: int, depth: int, max_fails: Any, slow_exit: bool 
             self.started = True
             self.alive = True
             rec("start", self.slot, self.pid)
+            # a freshly started worker may crash before the manager looks at it again (once per run, after the initial start-up)
+            if early_death and tr.tick >= 1 and not manager.get("early_death_used") and c.flag("dies_right_after_start"):
+                manager["early_death_used"] = True
+                self.alive = False
+                self.exitcode = 1
+                rec("env", "death", self.slot, self.pid)
 
         def terminate(self) -> None:
             self.term = True
@@ -85,6 +92,7 @@ def run(c: sym.Ctx, n_workers: int, depth: int, max_fails: Any, slow_exit: bool 
                     self.exitcode = -15
                 self.alive = False
                 self.joined = True
+                self.reaped = True
             else:
                 # a bounded join: the old process may or may not have exited in time
                 if self.alive and slow_exit and c.flag("exits_within_join_timeout") is False:
@@ -96,6 +104,8 @@ def run(c: sym.Ctx, n_workers: int, depth: int, max_fails: Any, slow_exit: bool 
                     self.joined = True
 
         def is_alive(self) -> bool:
+            if self.started and not self.alive:
+                self.reaped = True  # multiprocessing polls with waitpid(WNOHANG): a dead child is reaped here
             return self.alive
 
         def close(self) -> None:
@@ -141,7 +151,8 @@ def run(c: sym.Ctx, n_workers: int, depth: int, max_fails: Any, slow_exit: bool 
 
     class FakeOS:
         def kill(self, pid: int, sig: int) -> None:
-            rec("os.kill", pid, int(sig))
+            owner = next((p for p in tr.procs if p.pid == pid), None)
+            rec("os.kill", pid, int(sig), bool(owner is not None and owner.reaped))
 
         def __getattr__(self, name: str) -> Any:
             import os
